@@ -74,6 +74,11 @@ func genFaults(c *Ctx, kinds []string) {
 		"cmap 3 add:1 concat 2 lc 2 src 0 1,2 src 1 3",
 		"buffered 2 cmap 2 add:1 lc 1 src 0 1,2,3",
 		"filter mod:2:0 buffered 3 src 0 1,2,3,4,5,6,7,8",
+		// a lifecycle element AFTER an asynchronous stage, source longer than the buffers: when its Open fails the
+		// already started goroutines must be released (materialisation ctx cancelled) and the source closed
+		"lc 2 buffered 2 lc 1 src 0 1,2,3,4,5,6",
+		"lc 2 cmap 1 add:1 lc 1 src 0 1,2,3,4,5,6,7,8",
+		"lc 3 buffered 2 cmap 1 add:1 src 0 1,2,3,4,5,6,7,8",
 		"zip 2 buffered 2 src 0 1,2,3 buffered 3 lc 2 src 1 4,5,6",
 	}
 	asyncTerms := []string{"collect all", "user all", "collect take:1", "cuser:2 all", "collect take:3"}
